@@ -1,0 +1,43 @@
+//go:build verif
+
+// Contracts for package verify, checked by /verif (govc). Comment-only; compiled only under -tags verif.
+package verify
+
+//@ func CheckCertificate
+//@   ensures[C01] err == nil ==> result != nil && certDer(result) == val(certder) && chainsTo(val(certder), rootsOfTrust, now)
+//@   ensures[C01] err == nil ==> len(certder) != 0 && rootsOfTrust != nil
+//@   ensures[C01] err != nil ==> result == nil
+//@   assigns[C09] nothing
+
+//@ func EndorsementProto
+//@   requires endorsement != nil && opts != nil
+//@   ensures[C01] err == nil ==> authentic(old(val(endorsement.SerializedUefiGolden)), old(val(endorsement.Signature)), old(opts.RootsOfTrust), old(opts.Now))
+//@   ensures[C02] err == nil && old(len(opts.ExpectedUefiSha384)) != 0 ==> old(val(opts.ExpectedUefiSha384)) == pb("VMGoldenMeasurement.Digest", old(val(endorsement.SerializedUefiGolden)))
+//@   ensures[C02] err == nil && old(opts.SNP) != nil ==> exists(g, *epb.VMGoldenMeasurement, g != nil && pbok[g] && pbsrc[g] == old(val(endorsement.SerializedUefiGolden)) && snpEndorsed(g, old(opts.SNP.ExpectedLaunchVMSAs), old(val(opts.SNP.Measurement)), old(opts.SNP.Measurement == nil)))
+//@   assigns[C09] nothing
+
+//@ func Endorsement
+//@   requires opts != nil
+//@   ensures[C01] err == nil ==> authenticSer(old(val(serializedEndorsement)), old(opts.RootsOfTrust), old(opts.Now))
+//@   ensures[C02] err == nil && old(opts.SNP) != nil ==> exists(g, *epb.VMGoldenMeasurement, g != nil && pbok[g] && snpEndorsed(g, old(opts.SNP.ExpectedLaunchVMSAs), old(val(opts.SNP.Measurement)), old(opts.SNP.Measurement == nil)))
+//@   assigns[C09] nothing
+
+//@ func SNP
+//@   requires golden != nil && opts != nil
+//@   sweep[C07]
+//@   ensures[C02] err == nil ==> snpEndorsed(golden, opts.ExpectedLaunchVMSAs, val(opts.Measurement), opts.Measurement == nil)
+//@   assigns[C09] nothing
+
+//@ func SNPFamilyValidateFunc
+//@   requires opts != nil
+//@   assigns[C09] nothing
+
+//@ func SNPFamilyValidateFunc$1
+//@   requires opts != nil
+//@   sweep[C07]
+//@   ensures[C01] err == nil && old(opts.Endorsement) != nil ==> authentic(old(val(opts.Endorsement.SerializedUefiGolden)), old(val(opts.Endorsement.Signature)), old(opts.RootsOfTrust), old(opts.Now))
+//@   ensures[C01] err == nil && old(opts.Endorsement) == nil && serializedEndorsement != nil ==> authenticSer(old(val(serializedEndorsement)), old(opts.RootsOfTrust), old(opts.Now))
+//@   ensures[C01] err == nil && old(opts.Endorsement) == nil && serializedEndorsement == nil ==> authenticSer(lastGot, old(opts.RootsOfTrust), old(opts.Now))
+//@   ensures[C02] err == nil ==> attestation != nil && attestation.Report != nil && len(attestation.Report.Measurement) == 48
+//@   ensures[C02] err == nil ==> exists(g, *epb.VMGoldenMeasurement, g != nil && pbok[g] && snpEndorsed(g, ite(old(opts.SNP) == nil, 0, old(opts.SNP.ExpectedLaunchVMSAs)), val(attestation.Report.Measurement), false))
+//@   assigns[C09] nothing
